@@ -8,6 +8,7 @@ from ..execmodel import R
 from ..interp import Hooks, explore
 from ..model import norm
 from ..values import Const, Dct, ExcV, Obj, Str, Sym, tagof
+from .common import site_loc
 
 EXPLANATION = (
     "Narrow claim. Arrow wire compatibility with the connector and equality of rows over all value types are runtime "
@@ -638,6 +639,17 @@ def rule_rowset(ctx):
             if not src:
                 ctx.violation("C17.i", "server", "query_request", "rowset not from the result table", loc,
                               f"rowsetBase64 is `{tagof(rowset)[:80]}`, which is not derived from the executed cursor's result table")
+        # the column infos describe the result's columns by *position* (DESCRIBE lists them in result order): a mapping keyed by
+        # column name holds one entry per distinct name, so two result columns of one name would share the last one's type
+        rekeyed = [e for e in p.effects if e[0] == "keyed-lookup" and any(
+            isinstance(x, Sym) and x.origin and x.origin[0] == "call" and str(x.origin[1]).endswith("describe_as_rowtype") for x in _prov(e[1].src[1]))]
+        ctx.ob("C17.i", "column infos stay aligned with the result columns by position (never re-associated through a name-keyed mapping)",
+               not rekeyed, loc)
+        if rekeyed:
+            ctx.violation("C17.i", "server", "query_request", "column infos looked up by column name", site_loc(prog, "server", rekeyed[0][3]),
+                          f"the column infos are put into a mapping keyed by `{tagof(rekeyed[0][1].src[2])[:60]}` and read back per result column: "
+                          f"a result with two columns of the same name (select a.v, b.v ...) gets the last one's type / precision / scale for both, "
+                          f"in the rowtype and in the arrow metadata the connector decodes the values with")
     ctx.floor("C17.i success responses", n, 2)
     if not seen_nonempty:
         ctx.violation("C17.i", "server", "query_request", "no path sends rows", loc, "no success path serialises the result table")
